@@ -35,7 +35,7 @@ def load():
     if stale:
         build()
     with open(p) as f:
-        return json.load(f)
+        return json.loads(facts.normalize_paths(f.read()))
 
 
 if __name__ == "__main__":
